@@ -133,6 +133,12 @@ def run_impl(case):
                 break
             steps.append({'table': [[t['k'], repr(t['code'])] for t in (select_all(engine, ['k', 'code']) or [])]})
         return {'steps': steps}
+    # another table of the same database whose name starts with the target's name: no dump into t may touch it (round 8)
+    sib_rows = [{'k': 1, 'note': 'kept'}, {'k': 2, 'note': 'also kept'}]
+    if case.get('sibling', True):
+        with quiet():
+            Flow(Src([{'name': 's', 'fields': [{'name': 'k', 'type': 'integer'}, {'name': 'note', 'type': 'string'}], 'rows': copy.deepcopy(sib_rows)}]),
+                 DF.dump_to_sql({'t_2019': {'resource-name': 's'}}, engine=engine)).process()
     cols = ['k', 'k2', 'v', 'n']
     fields = [{'name': 'k', 'type': 'integer'}, {'name': 'k2', 'type': 'string'}, {'name': 'v', 'type': 'string'}, {'name': 'n', 'type': 'integer'}]
     steps = []
@@ -155,7 +161,13 @@ def run_impl(case):
             steps.append({'error': out['exc']})
             break
         down = out['rows'][0]
-        steps.append({'table': select_all(engine, cols), 'down': [dict((k, r.get(k)) for k in cols) for r in down],
+        with engine.connect() as c_:
+            try:
+                sib = [dict(zip(['k', 'note'], r)) for r in c_.execute(text('select k, note from t_2019 order by k')).fetchall()]
+            except Exception as e:
+                sib = 'gone (%s)' % type(e).__name__
+        steps.append({'sibling': sib if case.get('sibling', True) else None,
+                      'table': select_all(engine, cols), 'down': [dict((k, r.get(k)) for k in cols) for r in down],
                       'flags': [r.get('_upd') for r in down] if case['flags'] else None})
     return {'steps': steps}
 
@@ -250,6 +262,8 @@ def oracle(case, out):
                 d['mode'], d['batch'], d['bloom'], len(st['table'] or []), (st['table'] or [])[:3], len(table), table[:3])
         if st['down'] != d['rows']:
             return 'rows continuing downstream differ from the dumped rows'
+        if st.get('sibling') is not None and st['sibling'] != [{'k': 1, 'note': 'kept'}, {'k': 2, 'note': 'also kept'}]:
+            return 'after a %s dump into table t, the table t_2019 of the same database is %r' % (d['mode'], st['sibling'])
         if st['flags'] is not None and [bool(f) for f in st['flags']] != flags:
             return 'updated flags %r, truthful flags are %r' % (st['flags'], flags)
     return None
